@@ -224,6 +224,12 @@ static std::vector<std::string> all_histories(int maxlen) {
 		for (auto& h : nxt) r.push_back(h);
 		cur = nxt;
 	}
+	// the two one-sided option sets (O = optimize only, S = sort only): every history of length <= 2 that uses one
+	if (maxlen >= 2) {
+		const char L[5] = {'R', 'D', 'O', 'S', 'Q'};
+		for (char a : {'O', 'S'}) r.push_back(std::string(1, a));
+		for (char a : L) for (char b : L) if (a == 'O' || a == 'S' || b == 'O' || b == 'S') r.push_back(std::string(1, a) + b);
+	}
 	return r;
 }
 
@@ -249,12 +255,27 @@ static void oracle_c02_block(const std::string& type, const VerCfg& vc, const Sc
 // reference function on histories (DESIGN C02): the k-th save must equal Save(default)(Load(F)) if a
 // default save occurred at or before k, else Save(raw)(Load(F)) -- both from twin objects, compared
 // after canonical string-table renumbering; the logical snapshot must survive every save.
+// Save letters: R = raw (optimize off, sort off), D = default (both on), O = optimize only, S = sort only.  The model
+// remembers what a save did to it (pruned blocks stay pruned, sorted blocks stay sorted), so the k-th save must equal
+// the first save of a fresh twin under the options accumulated so far: optimize = some save so far optimised, sort =
+// some save so far sorted.  One exception is left open: sorting BEFORE the first pruning (S ... O) - the order of the
+// survivors is then not required to be the order a sort after pruning would give; only repeatability is demanded there.
 static void c02_file_checks(const std::string& F, const std::string& keybase, const std::string& what, J cj, Stats& st) {
-	NifFile traw, tdef;
-	if (s1::load(traw, F) != 0) { st.add("file_not_accepted"); return; }
-	if (s1::load(tdef, F) != 0) return;
-	canon::Canon refRaw = canon::canonical(canon::save(traw, true));
-	canon::Canon refDef = canon::canonical(canon::save(tdef, false));
+	canon::Canon refs[2][2];
+	bool have[2][2] = {{false, false}, {false, false}};
+	auto ref_for = [&](bool p, bool t) -> const canon::Canon* {
+		if (!have[p][t]) {
+			NifFile twin;
+			if (s1::load(twin, F) != 0) return nullptr;
+			refs[p][t] = canon::canonical(canon::save_with(twin, p, t));
+			have[p][t] = true;
+		}
+		return &refs[p][t];
+	};
+	{
+		NifFile traw;
+		if (s1::load(traw, F) != 0) { st.add("file_not_accepted"); return; }
+	}
 	st.add("files_checked");
 	bat::Opt full, freeo;
 	full.index_free = false;
@@ -270,24 +291,37 @@ static void c02_file_checks(const std::string& F, const std::string& keybase, co
 		if (s1::load(x, F) != 0) return;
 		st.add("histories");
 		std::string base_full = bat::model_text(x, full), base_free = bat::model_text(x, freeo);
-		bool seenDefault = false;
+		bool P = false, T = false, sortedBeforePruned = false;
+		canon::Canon lastSave;
+		bool haveLast = false;
 		J cjh = cj;
 		cjh.set("history", h);
 		for (size_t k = 0; k < h.size(); k++) {
 			char op = h[k];
-			bool firstDefault = false;
-			if (op == 'R' || op == 'D') {
-				if (op == 'D' && !seenDefault) { seenDefault = true; firstDefault = true; }
-				canon::Canon got = canon::canonical(canon::save(x, op == 'R'));
+			bool firstDefault = false; // this save pruned or sorted for the first time
+			if (op == 'R' || op == 'D' || op == 'O' || op == 'S') {
+				const bool p = op == 'D' || op == 'O', t = op == 'D' || op == 'S';
+				if ((p && !P) || (t && !T)) firstDefault = true;
+				if (p && !P && T) sortedBeforePruned = true;
+				const bool changed = (p && !P) || (t && !T);
+				P = P || p;
+				T = T || t;
+				canon::Canon got = canon::canonical(canon::save_with(x, p, t));
 				st.add("saves_compared");
-				std::string d = canon::diff(seenDefault ? refDef : refRaw, got);
-				if (!d.empty()) {
-					st.violation(keybase + ":resave-differs:" + canon::first_block_type_differing(seenDefault ? refDef : refRaw, got),
-								 vf::strf("%s: history %s, save #%zu (%s) differs from the first save of a fresh twin: %s", what.c_str(), h.c_str(), k + 1,
-										  op == 'R' ? "raw" : "default", d.c_str()),
-								 cjh);
-					break;
+				const char* opname = op == 'R' ? "raw" : op == 'D' ? "default" : op == 'O' ? "optimize only" : "sort only";
+				const canon::Canon* ref = sortedBeforePruned ? (haveLast && !changed ? &lastSave : nullptr) : ref_for(P, T);
+				if (ref) {
+					std::string d = canon::diff(*ref, got);
+					if (!d.empty()) {
+						st.violation(keybase + ":resave-differs:" + canon::first_block_type_differing(*ref, got),
+									 vf::strf("%s: history %s, save #%zu (%s) differs from %s: %s", what.c_str(), h.c_str(), k + 1, opname,
+											  sortedBeforePruned ? "the previous save of the same model" : "the first save of a fresh twin under the accumulated options", d.c_str()),
+									 cjh);
+						break;
+					}
 				}
+				lastSave = got;
+				haveLast = true;
 			}
 			std::string now_full = bat::model_text(x, full);
 			st.add("snapshots_compared");
@@ -874,7 +908,7 @@ int main(int argc, char** argv) {
 	}
 	if (A.prop == "C02") {
 		if (thorough) g_hists = all_histories(3);
-		else g_hists = {"RRR", "DDD", "RD", "DR", "QRQ"};
+		else g_hists = {"RRR", "DDD", "RD", "DR", "QRQ", "OO", "SS", "OS"};
 		if (A.has("hist")) g_hists = {A.get("hist")};
 		g_bound = (int) A.geti("bound", 1); // block level: deviation <= 1 wide; thorough raises the file level instead
 		if (thorough && !A.has("bound")) g_bound = 2;
